@@ -6,6 +6,8 @@ package hybridbuffer
 // variables): queue 2, memory window 2.
 
 import (
+	"time"
+
 	"github.com/relex/gotils/logger"
 	"github.com/relex/slog-agent/base"
 	"github.com/relex/slog-agent/defs"
@@ -411,6 +413,73 @@ func VerifC03_StalledConsumerAtShutdown() {
 //verif:clock virtual
 //verif:reach done
 func VerifC18_StalledConsumerAtShutdown() { VerifC03_StalledConsumerAtShutdown() }
+
+// VerifC03_DestroyWaitsForSlowHandback: the consumer holds the oldest chunk
+// and needs up to the client's own stop bound (a hung ACK read running into
+// its timeout, 0 / 100 / 140 s of virtual time) before it hands the chunk back
+// and finishes: Destroy waits for it (its timeout is dimensioned for exactly
+// that), so when Destroy returns the feeder has stopped and the handed-back
+// chunk is a file - a successor started on the same directory then recovers
+// it before anything newer.
+//
+//verif:native off
+//verif:solver cvc5-int
+//verif:preempt 0
+//verif:clock virtual
+//verif:reach done
+func VerifC03_DestroyWaitsForSlowHandback() {
+	defer verifScale()()
+	fs := fsmodel.Reset()
+	m := fakes.NewMetrics()
+	buf := newBufferer(logger.Root(), "/root", "id1", verifMatchFF, m, 1<<30, false).(*bufferer)
+	buf.Start()
+	args := buf.RegisterNewConsumer()
+	delay := []time.Duration{0, 100 * time.Second, 140 * time.Second}[sym.Choice("consumerStopDelay", 3)]
+	sym.Assert(delay <= defs.ForwarderBatchAckTimeout+defs.IntermediateChannelTimeout, "the scripted delay is within the client's stop bound")
+	go func() {
+		var held []base.LogChunk
+		for chunk := range args.InputChannel {
+			held = append(held, chunk)
+		}
+		time.Sleep(delay) // e.g. an ACK read that runs into its timeout before the client can stop
+		for _, chunk := range held {
+			args.OnChunkLeftover(chunk)
+		}
+		args.OnFinished()
+	}()
+	data := sym.BigBytes("data", 1, 100)
+	buf.Accept(base.LogChunk{ID: verifIDs[0], Data: append([]byte{}, data...)})
+	buf.Accept(base.LogChunk{ID: verifIDs[1], Data: []byte{1, 2, 3}})
+	sym.Yield()
+	buf.Destroy()
+	sym.Assert(buf.Stopped().Peek(), "Destroy returns only after the feeder has stopped when the consumer finishes within the client's stop bound")
+	f, ok := fs.Files[verifIDs[0]]
+	sym.Assert(ok, "the chunk handed back at shutdown is in the queue directory when Destroy returns")
+	if ok {
+		verifSameBytes(f, data, "the handed-back chunk is complete")
+	}
+	_, ok2 := fs.Files[verifIDs[1]]
+	sym.Assert(ok2, "every chunk is in the queue directory when Destroy returns")
+	sym.Reach("done")
+}
+
+// VerifC05_DestroyWaitsForSlowHandback: the same run read for C05 (the oldest chunk must be on disk before a successor scans the directory).
+//
+//verif:native off
+//verif:solver cvc5-int
+//verif:preempt 0
+//verif:clock virtual
+//verif:reach done
+func VerifC05_DestroyWaitsForSlowHandback() { VerifC03_DestroyWaitsForSlowHandback() }
+
+// VerifC18_DestroyWaitsForSlowHandback: the same run read for C18.
+//
+//verif:native off
+//verif:solver cvc5-int
+//verif:preempt 0
+//verif:clock virtual
+//verif:reach done
+func VerifC18_DestroyWaitsForSlowHandback() { VerifC03_DestroyWaitsForSlowHandback() }
 
 // VerifC05_RecoveryOrder: restart recovery read as the ordering guarantee.
 //
